@@ -2009,3 +2009,83 @@ Proof.
   split; [exact C03_ReachFullEx.ex3_full_hyps|]. split; [exact C04_Reach3Ex.reach3_ci_example|].
   destruct C04_SetPath.psm_witness as (A & B & _). exact (conj A B).
 Qed.
+
+(* ================================================================== task c04cost *)
+From RU Require Proofs.C04_Table2.
+
+(* THE INVENTORY TABLE WITH REAL CLAIMS ON ROWS THAT CARRIED THE TRIVIAL ONE (Proofs/C04_Table2.v).
+   C04_no_panic_inventory left 54 of the 167 rows with the claim True (KByType / KDocumented / KHarness).  C04_Table2.table2
+   is computed from C04_Table.table and the list C04_Table2.overrides: 21 of the KByType rows - every one whose function
+   has a Gallina model about which something can be stated - now carry a claim on that model (kind KRange), proved from
+   the existing totality / cost / UTF-8 theorems:
+     parser::to_u32 (no panic; Ok exactly below 2^32, ParseError::Overflow above), parser::default_port (a u16),
+     Input::new_no_trim / new_trim_tab_and_newlines / new_trim_c0_control_and_space / is_empty / split_prefix (what they
+     return is a &str again: scalar values), Parser::parse_scheme (scheme a-z 0-9 + - ., the remaining input a suffix and a
+     &str), Parser::file_host (slices in range, 2 steps per character, no panic outcome of its two callers for any host
+     parser), Parser::parse_query / parse_fragment / parse_cannot_be_a_base_path (cost twins, 13n+1),
+     percent_decode / percent_decode_str / PercentDecode::decode_utf8 / decode_utf8_lossy (3 steps per byte, output not
+     longer than the input, the String of the lossy view is scalar values, the reused Vec is valid UTF-8),
+     AsciiSet::union / complement (the words stay u32 values; membership is the set operation),
+     Serializer::new (position 0 is in range and a character boundary: ANY session of well-formed operations on ANY target
+     ends in Ok - neither the documented for_suffix panic nor F-C15-1 can occur),
+     FragmentIdentifier::to_percent_encoded (ASCII), Mime::get_parameter (exactly the parameter pairs of a parse result).
+     (1) the key columns of table2 ARE the regenerated inventory T_C04_API;
+     (2) every claim holds (the 37 old ones and the 11 new ones), hence the claim of every row;
+     (3) every override names exactly one row of the old table, a KByType row with the trivial claim, and its new claim
+         is not the trivial one;
+     (4) the rows that are not overridden keep kind and pinned theorem;
+     (5) exactly the rows of kind K KByType / K KDocumented / K KHarness carry the trivial claim;
+     (6) census: 76 KTheorem, 20 KExact, 17 KOutside, 21 KRange, 27 KByType (constructors, field reads, matches on an enum:
+         ParseOptions::base_url / encoding_override, Url::options / as_str / into_string / has_host / port, Host::to_owned,
+         Origin::is_tuple / ascii_serialization, SyntaxViolation::description, SchemeType::is_special / is_file,
+         Parser::for_setter, parser::ascii_alpha / is_windows_drive_letter, quirks::internal_components / href, Idna::new,
+         the four Config builders, Uts46::new, Serializer::encoding_override, DataUrl::mime_type, Decoder::new),
+         2 KDocumented, 4 KHarness: 33 rows with the trivial claim instead of 54. *)
+Theorem C04_no_panic_inventory2 :
+  map C04_Table2.row2_key C04_Table2.table2 = T_C04_API
+  /\ ((forall q, C04_Table2.claim2 q)
+      /\ Forall (fun r => C04_Table2.claim2 (C04_Table2.r2_claim r)) C04_Table2.table2)
+  /\ C04_Table2.overrides_sound_b = true
+  /\ C04_Table2.table2_keeps_b = true
+  /\ C04_Table2.kinds2_consistent_b = true
+  /\ (length C04_Table2.table2 = 167%nat /\ length C04_Table2.overrides = 21%nat
+      /\ C04_Table2.count_kind2 (C04_Table2.K C04_Table.KTheorem) = 76%nat
+      /\ C04_Table2.count_kind2 (C04_Table2.K C04_Table.KExact) = 20%nat
+      /\ C04_Table2.count_kind2 (C04_Table2.K C04_Table.KOutside) = 17%nat
+      /\ C04_Table2.count_kind2 C04_Table2.KRange = 21%nat
+      /\ C04_Table2.count_kind2 (C04_Table2.K C04_Table.KByType) = 27%nat
+      /\ C04_Table2.count_kind2 (C04_Table2.K C04_Table.KDocumented) = 2%nat
+      /\ C04_Table2.count_kind2 (C04_Table2.K C04_Table.KHarness) = 4%nat).
+Proof.
+  exact (conj C04_Table2.table2_complete (conj (conj C04_Table2.claims2_hold C04_Table2.table2_sound)
+        (conj C04_Table2.overrides_sound (conj C04_Table2.table2_keeps (conj C04_Table2.kinds2_consistent
+        C04_Table2.table2_counts))))).
+Qed.
+Check C04_no_panic_inventory2 :
+  map C04_Table2.row2_key C04_Table2.table2 = T_C04_API
+  /\ ((forall q, C04_Table2.claim2 q)
+      /\ Forall (fun r => C04_Table2.claim2 (C04_Table2.r2_claim r)) C04_Table2.table2)
+  /\ C04_Table2.overrides_sound_b = true
+  /\ C04_Table2.table2_keeps_b = true
+  /\ C04_Table2.kinds2_consistent_b = true
+  /\ (length C04_Table2.table2 = 167%nat /\ length C04_Table2.overrides = 21%nat
+      /\ C04_Table2.count_kind2 (C04_Table2.K C04_Table.KTheorem) = 76%nat
+      /\ C04_Table2.count_kind2 (C04_Table2.K C04_Table.KExact) = 20%nat
+      /\ C04_Table2.count_kind2 (C04_Table2.K C04_Table.KOutside) = 17%nat
+      /\ C04_Table2.count_kind2 C04_Table2.KRange = 21%nat
+      /\ C04_Table2.count_kind2 (C04_Table2.K C04_Table.KByType) = 27%nat
+      /\ C04_Table2.count_kind2 (C04_Table2.K C04_Table.KDocumented) = 2%nat
+      /\ C04_Table2.count_kind2 (C04_Table2.K C04_Table.KHarness) = 4%nat).
+Print Assumptions C04_no_panic_inventory2.
+
+(* non-vacuity of the new claims: concrete values *)
+Example C04_inventory2_instances :
+  to_u32 4294967295 = POk 4294967295 /\ to_u32 4294967296 = PErr Overflow
+  /\ default_port s_https = Some 443
+  /\ aset_wf (aset_complement T_PATH_SEGMENT) /\ aset_wf (aset_union T_PATH_SEGMENT T_FRAGMENT)
+  /\ DataUrl.to_percent_encoded [97; 9; 32; 233; 60] = [97; 37; 50; 48; 37; 69; 57; 37; 51; 67]
+  /\ file_host [104; 9; 111; 47; 120] = ([104; 111], [47; 120])
+  /\ parse_scheme CUrlParser [72; 116; 9; 84; 80; 58; 47] = Some ([104; 116; 116; 112], [47])
+  /\ inp_split_prefix_str [47; 47] [9; 47; 10; 47; 120] = Some [120]
+  /\ snd (FormUrlencoded.decode_utf8_lossy (pd_cow [37; 70; 70; 97])) = [65533; 97].
+Proof. vm_compute. repeat split; try reflexivity; intros H; discriminate H. Qed.
